@@ -350,6 +350,14 @@ def run(ctx):
                                    "bcast_addr": i % 4 == 1,
                                    "hd": rng.choice([0, 0, 0, 0.15, 0.35]),
                                    "rank": rng.choice(["stable", "reverse", "perm", "seeded"])}))
+    # chatty neighbourhoods (fixed members, not drawn): six spas that answer every broadcast three times over, and six
+    # that all answer just before the initial wait ends - replies are still queued when it ends; the run ends there
+    for rank_ in ("stable", "reverse"):
+        logs.append(scenario(rng, {"responders": [(tokens[j], f"chatty {j}", lambda n: [0.01, 0.02, 0.03]) for j in range(6)],
+                                   "filter": "none", "hd": 0, "rank": rank_}))
+        logs.append(scenario(rng, {"responders": [(tokens[j], f"late {j}", lambda n: [3.9 - 1.1 * n, 3.92 - 1.1 * n] if n < 3 else [])
+                                                  for j in range(6)],
+                                   "filter": "none", "hd": 0, "rank": rank_}))
     # boundary grid: a reply consumed just before discover() decides to finish, with a client
     # handler that suspends (initial-wait boundary with another spa listed; timeout boundary)
     for hd in (0.15, 0.35):
